@@ -473,6 +473,93 @@ def sampling_cases(rng, tier):
     return cs
 
 
+TENSOR_SRC = '''
+def sample_tensor(space, fs, k, mode, inplace, shaped):
+    """Values of a vector-valued callable / a list of callables and constants on the grid of
+    `space`, through sampling_function(..., out_dtype=(float, (k,))): result shape (k,) + grid."""
+    import numpy as np
+    from odl.discr.discr_utils import sampling_function, point_collocation
+    func = sampling_function(fs, space.domain, out_dtype=(float, (k,)) if shaped else None)
+    x = space.meshgrid if mode == 'mesh' else space.points().T
+    shp = (k,) + (space.shape if mode == 'mesh' else (space.size,))
+    if inplace:
+        out = np.full(shp, np.nan)
+        r = point_collocation(func, x, out=out)
+        assert r is out
+    else:
+        out = np.asarray(point_collocation(func, x))
+    assert out.shape == shp, (out.shape, shp)
+    return out.reshape((k,) + space.shape)
+'''
+exec(TENSOR_SRC)
+
+
+def tensor_src(rng, comps, form):
+    """Python source defining `fs`: a list of callables/constants (form 'list') or one callable
+    returning a tuple (form 'tuple')."""
+    if form == 'tuple':
+        return 'import numpy as np\nfs = lambda x: (%s,)\n' % ', '.join(e.src(True) for e in comps)
+    lines, names = ['import numpy as np'], []
+    for i, e in enumerate(comps):
+        if e.op == 'const' and rng.random() < 0.7:
+            names.append(repr(float(e.a[0])))                    # a constant entry
+            continue
+        fl = rng.choice(['vec', 'inplace', 'dual'])
+        if fl == 'vec':
+            lines.append('g%d = lambda x: %s' % (i, e.src(True)))
+        elif fl == 'inplace':
+            lines.append('def g%d(x, out):\n    out[:] = %s' % (i, e.src(True)))
+        else:
+            lines.append('def g%d(x, out=None):\n    r = %s\n    if out is None:\n        return r\n    out[:] = r'
+                         % (i, e.src(True)))
+        names.append('g%d' % i)
+    lines.append('fs = [%s]' % ', '.join(names))
+    return '\n'.join(lines) + '\n'
+
+
+def tensor_sampling_cases(rng, tier):
+    cs = C.CaseSet('sampling_tensor', ['C15.Syntax', 'C15.Model', 'C15.Corr'], 'scheck', 'scase')
+    n_cases = 60 if tier == 'quick' else 400
+    for it in range(n_cases):
+        d = rng.choice([1, 2, 2, 3])
+        sp, spsrc = make_space(rng, d, 'float64')
+        k = rng.randint(1, 3)
+        form = 'list' if it % 2 == 0 else 'tuple'
+        comps = [gen_ex(rng, d, rng.choice([0, 1, 2]), rng.sample(range(d), rng.randint(0, d)) if rng.random() < 0.4 else None)
+                 for _ in range(k)]
+        if form == 'tuple' and len(set(frozenset(e.coords()) for e in comps)) == 1 \
+                and len(comps[0].coords()) < d:
+            # all components would have the same partial shape: recorded finding
+            # sampling-tensor-equal-partial-shapes-valueerror (probed separately); make one component full
+            full = Ex('coord', 0)
+            for kk in range(1, d):
+                full = Ex('add', full, Ex('coord', kk))
+            comps[0] = Ex('add', comps[0], Ex('mul', Ex('const', 0.0), full))
+        mode = rng.choice(['mesh', 'array'])
+        inplace = rng.random() < 0.5
+        shaped = form == 'tuple' or rng.random() < 0.5
+        src = tensor_src(rng, comps, form)
+        env = {}
+        exec(src, env)
+        err = None
+        with warnings.catch_warnings():
+            warnings.simplefilter('ignore')
+            try:
+                arr = sample_tensor(sp, env['fs'], k, mode, inplace, shaped)
+            except Exception as e:
+                arr, err = None, '%s: %s' % (type(e).__name__, str(e)[:200])
+        cvs = [c.tolist() for c in sp.grid.coord_vectors]
+        for j, e in enumerate(comps):
+            flat = np.zeros(0) if arr is None else np.asarray(arr[j]).ravel()
+            term = ('{| s_cvs := %s; s_re := %s; s_im := FConst 0; s_cplx := false; s_out_re := %s; s_out_im := [] |}'
+                    % (C.qss(cvs), e.coq(), C.qs([float(v) for v in flat.tolist()])))
+            desc = {'family': 'tensor', 'form': form, 'mode': mode, 'inplace': inplace, 'shaped': shaped, 'k': k,
+                    'component': j, 'space': spsrc, 'callable': src, 'error': err,
+                    'scalar_exprs': [c.src(False, 'p') for c in comps]}
+            cs.add(term, desc, (form, mode, inplace, shaped, spsrc, src, j) if len(set(flat.tolist())) > 1 else None)
+    return cs
+
+
 def resample_cases(rng, tier, variants):
     """Resampling(domain, range, interp)(domain.element(callable)) and linear_deform."""
     import odl
@@ -546,7 +633,8 @@ def resample_cases(rng, tier, variants):
 
 def correspondence(rng, tier):
     variants = measure_variants()
-    return [interp_cases(rng, tier, variants), sampling_cases(rng, tier)] + resample_cases(rng, tier, variants)
+    return ([interp_cases(rng, tier, variants), sampling_cases(rng, tier), tensor_sampling_cases(rng, tier)]
+            + resample_cases(rng, tier, variants))
 
 
 # ------------------------------------------------------------------- probes
@@ -803,6 +891,19 @@ def probes(rng, tier):
         _probe(out, 'linear-interp-single-node-axis-nonfinite',
                'linear_interpolator on a grid with a single node along an axis (%d-d) reproduces the node values' % d,
                snip)
+    # ---- 7. vector-valued callables through sampling_function (shaped out_dtype)
+    for form, body in (('tuple-mixed', '(x[0] + 0.0 * x[1], 2.0, x[0] * x[1])'),
+                       ('tuple-equal-partial', '(x[1], 2.0 * x[1], x[1] + 1.0)')):
+        snip = ('import numpy as np, odl, warnings\nwarnings.simplefilter("ignore")\n'
+                'from odl.discr.discr_utils import sampling_function, point_collocation\n'
+                'space = odl.uniform_discr([0, 0], [2, 3], (2, 3))\n'
+                'func = sampling_function(lambda x: %s, space.domain, out_dtype=(float, (3,)))\n'
+                'observed = np.asarray(point_collocation(func, space.meshgrid))\n'
+                'expected = np.array([[(lambda x: %s)(p)[i] for p in space.points()] for i in range(3)]).reshape(3, 2, 3)\n'
+                'ok = observed.shape == expected.shape and bool(np.all(observed == expected))\n' % (body, body))
+        _probe(out, 'sampling-tensor-equal-partial-shapes-valueerror' if form == 'tuple-equal-partial'
+               else 'sampling-tensor-tuple-broadcast',
+               'vector-valued callable (%s) sampled on a mesh gives its values at the grid points' % form, snip)
     return out
 
 
